@@ -183,6 +183,11 @@ class ListField(Field):
         if not self.field or isinstance(self.field, AnyField):
             return list(value) if isinstance(value, tuple) else value
 
+        if isinstance(value, ListProxy) and value.cfg is cfg and value.list_field is self:
+            # already this config's validated list for this field (eg. built by to_python while
+            # loading): keep it, so that item configs keep pointing at the list that holds them
+            return value
+
         proxy = ListProxy(cfg, self, value)
         return proxy
 
